@@ -193,33 +193,81 @@ def each_item_rule(ck, facts):
         ck.bad("R15.4", "R15.4@try_for_each_item#loop", "loop condition not recognised (repeats on true=%s, stops on false=%s)" % (loops, stops), fn.loc)
 
 
+def self_field_of(fn, operand):
+    """the field of `self` an operand borrows (`&mut self.buffer` -> "buffer"), or None"""
+    if operand[0] == "k":
+        return None
+    o = fn.origin(operand)
+    if o[0] == "param" and o[1] == 1:
+        for x in o[2]:
+            m = re.match(r"f\d+:(\w+)$", str(x))
+            if m:
+                return m.group(1)
+    return None
+
+
+def buffer_events(fn):
+    """per block: the events that move a buffer out of / back into a field of self: mem::swap(&mut self.f, ..) toggles,
+    mem::take(&mut self.f) / mem::replace(&mut self.f, ..) takes it out, an assignment `self.f = ..` puts one back"""
+    ev = {}
+    fields = set()
+    for bi, t in fn.calls():
+        if call_name_matches(t, r"^(std|core)::mem::swap$"):
+            ev.setdefault(bi, []).append(("t", "toggle"))
+        elif call_name_matches(t, r"^(std|core)::mem::(take|replace)$") and t["args"]:
+            f = self_field_of(fn, t["args"][0])
+            if f:
+                fields.add(f)
+                ev.setdefault(bi, []).append(("t", "out"))
+    for bi, b in enumerate(fn.blocks):
+        for st in b["s"]:
+            if st[0] == "=" and st[1] and st[1][0] == 1 and len(st[1]) > 1:
+                m = re.match(r"f\d+:(\w+)$", str(st[1][-1]))
+                if m and m.group(1) in fields:
+                    ev.setdefault(bi, []).insert(0, ("s", "in"))
+    # a Drop-and-assign of the field compiles to a `drop` terminator followed by the assignment: covered by the statement form
+    return ev
+
+
 def swap_parity_rule(ck, facts, fns):
+    import core
+    for name, expect in (("Taken::pos_taken_not_restored", True), ("Taken::neg_taken_and_restored", False)):
+        f = core.fixture_fn(name)
+        ck.control("R15.6", name, bool(unrestored_returns(f)), expect)
     n = 0
     for fn in fns:
         if not (re.search(r"api/src/source", fn.file) and re.search(r"Iterator>::next$", fn.name)):
             continue
-        swaps = [bi for bi, t in fn.calls() if call_name_matches(t, r"^std::mem::swap$|^core::mem::swap$")]
-        if not swaps:
+        if not buffer_events(fn):
             continue
         n += 1
-        # parity dataflow
-        par = {0: {0}}
-        work = [0]
-        while work:
-            b = work.pop()
-            for p in list(par[b]):
-                q = p ^ 1 if b in swaps else p
-                for s in fn.succs(b):
-                    if q not in par.setdefault(s, set()):
-                        par[s].add(q)
-                        work.append(s)
-        bad = [r for r in fn.ret_blocks() if 1 in {p ^ (1 if r in swaps else 0) for p in par.get(r, set())}]
-        if bad:
+        if unrestored_returns(fn):
             ck.bad("R15.6", "R15.6@%s#swap-not-restored" % fn.name, "a buffer swapped out of self is not swapped back on a path to "
                    "return: items already buffered are lost", fn.loc)
         else:
             ck.ok("R15.6", "%s: swaps paired on every path" % fn.name)
     return n
+
+
+def unrestored_returns(fn):
+    """return blocks reachable with the buffer still outside self (state 1)"""
+    ev = buffer_events(fn)
+
+    def step(p, b):
+        for _, e in ev.get(b, ()):
+            p = (p ^ 1) if e == "toggle" else (1 if e == "out" else 0)
+        return p
+    par = {0: {0}}
+    work = [0]
+    while work:
+        b = work.pop()
+        for p in list(par[b]):
+            q = step(p, b)
+            for s_ in fn.succs(b):
+                if q not in par.setdefault(s_, set()):
+                    par[s_].add(q)
+                    work.append(s_)
+    return [r for r in fn.ret_blocks() if 1 in {step(p, r) for p in par.get(r, set())}]
 
 
 def writer_rule(ck, facts):
@@ -539,31 +587,67 @@ def source_iterator_rule(ck, facts):
     ck.floor("R15.11", "size hints of adapters with a done flag", m, 2)
 
 
-def unfinished_returns(fn, start, finish_re, sink_variant="SinkError"):
-    """return blocks reachable from `start` without passing a call matching finish_re and without taking the edge of a `match` arm
-    for the variant `sink_variant` (after a sink error the writer is failing: nothing more can be written)"""
+def unfinished_returns(fn, call_term, finish_re, source_re=r"Source", sink_re=r"Sink"):
+    """Return blocks reachable from the continuation of `call_term` (which returns Result<(), StreamError>) without passing a call
+    matching finish_re, on a path along which the result can still be a *source* error.  The walk tracks what the result can be
+    ({Ok, Source, Sink}) through the decisions made on it: `match` / `if let` on the Result and on its Err payload, and `?`
+    (Try::branch: Continue = Ok, Break = Err).  A return reached with only Ok / Sink left is not reported: after a sink error the
+    writer is failing, nothing more can be written; `formatted?` after `if let Err(SourceError(e)) = formatted { finish; return }`
+    can only break with a sink error."""
+    if len(call_term["dest"]) != 1 or call_term.get("to") is None:
+        return [-1]
+    res = set(forward_aliases(fn, call_term["dest"][0], limit=20))
     fin = {bi for bi, t in fn.calls() if call_name_matches(t, finish_re)}
-    seen, todo = set(), [start]
+    branches = {}      # dest local of Try::branch(result) -> True
+    for bi, t in fn.calls():
+        if call_name_matches(t, r"ops::Try::branch$|try_trait::Try::branch$") and t["args"] and t["args"][0][0] != "k" \
+                and t["args"][0][1][0] in res and len(t["args"][0][1]) == 1 and len(t["dest"]) == 1:
+            branches[t["dest"][0]] = True
+    ALL = frozenset(("Ok", "Source", "Sink"))
+
+    def classify(name):
+        if name in ("Ok", "Continue"):
+            return {"Ok"}
+        if name in ("Err", "Break"):
+            return {"Source", "Sink"}
+        if re.search(source_re, name):
+            return {"Source"}
+        if re.search(sink_re, name):
+            return {"Sink"}
+        return set(ALL)
+    seen, todo, bad = set(), [(call_term["to"], ALL)], set()
+    rets = set(fn.ret_blocks())
     while todo:
-        b = todo.pop()
-        if b in seen or b in fin:
+        b, poss = todo.pop()
+        if (b, poss) in seen or b in fin or not poss:
             continue
-        seen.add(b)
+        seen.add((b, poss))
+        if b in rets and "Source" in poss:
+            bad.add(b)
         t = fn.blocks[b]["t"]
-        skip = set()
-        if t["t"] == "switch":
+        refined = None
+        if t["t"] == "switch" and t["on"][0] != "k":
+            o = fn.origin(t["on"])
             names = (t.get("variants") or {}).get("names") or {}
-            for v, tb in t["vals"]:
-                if names.get(v) == sink_variant:
-                    skip.add(tb)
-            listed = {v for v, _ in t["vals"]}
-            if names and {n for v, n in names.items() if v not in listed} == {sink_variant}:
-                skip.add(t["else"])         # `Err(e) => return Err(e)` after the source arm: the catch-all is the sink variant
-        for nb in fn.succs(b):
-            if nb in skip:
-                continue
-            todo.append(nb)
-    return sorted(r for r in fn.ret_blocks() if r in seen)
+            if o[0] == "rvalue" and o[1][0] == "discr" and o[1][1] and names:
+                pl = o[1][1]
+                on_result = pl[0] in res and (len(pl) == 1 or (len(pl) == 3 and str(pl[1]).endswith(":Err")))
+                on_branch = pl[0] in branches and len(pl) == 1
+                if on_result or on_branch:
+                    scope = {"Source", "Sink"} if len(pl) == 3 else set(ALL)
+                    refined = []
+                    listed = set()
+                    for v, tb in t["vals"]:
+                        cls = classify(names.get(v, "?")) & scope
+                        listed |= cls
+                        refined.append((tb, frozenset(poss & (cls | (ALL - scope if len(pl) == 3 and False else set())))))
+                    refined.append((t["else"], frozenset(poss & (scope - listed))))
+        if refined is not None:
+            todo.extend(refined)
+        else:
+            for nb in fn.succs(b):
+                todo.append((nb, poss))
+    return sorted(bad)
 
 
 def formatter_finished_rule(ck, facts):
@@ -572,10 +656,11 @@ def formatter_finished_rule(ck, facts):
     source's error, or the k items consumed before the fault are left as an unterminated document.  Only a sink error (the writer
     itself is failing) may return without it."""
     import core
-    for name, expect in (("pos_unfinished_on_source_error", True), ("neg_finished_on_source_error", False), ("neg_finished_before_deciding", False)):
+    for name, expect in (("pos_unfinished_on_source_error", True), ("neg_finished_on_source_error", False), ("neg_finished_before_deciding", False),
+                         ("neg_finished_then_question_mark", False), ("pos_question_mark_before_source_test", True)):
         f = core.fixture_fn(name)
-        st = [t["to"] for _, t in f.calls() if call_name_matches(t, r"feed_formatter$")]
-        ck.control("R15.14", name, len(st) == 1 and unfinished_returns(f, st[0], r"FixFormatter::finish$", "Sink"), expect)
+        st = [t for _, t in f.calls() if call_name_matches(t, r"feed_formatter$")]
+        ck.control("R15.14", name, len(st) == 1 and unfinished_returns(f, st[0], r"FixFormatter::finish$"), expect)
     n = 0
     for f in sorted(facts.fns.values(), key=lambda x: x.id):
         if f.crate not in ("sophia_turtle", "sophia_xml") or f.kind == "Closure":
@@ -589,7 +674,7 @@ def formatter_finished_rule(ck, facts):
             if not fins:
                 ck.bad("R15.14", "R15.14@%s#anchor" % panics_key(short), "anchor-missing: no finish() of the rio formatter in %s" % short, f.loc)
                 continue
-            rets = unfinished_returns(f, t["to"], r"Formatter>?::finish$|Formatter::<W>::finish$")
+            rets = unfinished_returns(f, t, r"Formatter>?::finish$|Formatter::<W>::finish$")
             if rets:
                 ck.bad("R15.14", "R15.14@%s#unfinished-after-source-error" % panics_key(short), "%s returns the error of rio_format_* without calling "
                        "the formatter's finish(): when the source fails at item k >= 1 the output stops inside the last statement "
